@@ -529,8 +529,13 @@ def lockstep(chk, repo, rid, fi, names, call):
                 inits[s.targets[0].id] = s
     if set(inits) == set(names):
         gens = [inits[x].value.generators for x in names]
+        def filt(g):
+            # filters compared modulo the name of the comprehension variable
+            import re
+            t = norm(g.target)
+            return tuple(re.sub(rf'\b{re.escape(t)}\b', '$x', norm(i)) if t.isidentifier() else norm(i) for i in g.ifs)
         same = all(len(g) == 1 for g in gens) and len({norm(g[0].iter) for g in gens}) == 1 and \
-            len({tuple(norm(i) for i in g[0].ifs) for g in gens}) == 1 and len({norm(g[0].target) for g in gens}) == 1
+            len({filt(g[0]) for g in gens}) == 1
         src = {n_.id for g in gens for n_ in ast.walk(g[0].iter) if isinstance(n_, ast.Name)}
         lines = sorted(inits[x].lineno for x in names)
         rebound = [s for s in order if s.targets[0].id in src and lines[0] < s.lineno < lines[-1]]
